@@ -239,7 +239,7 @@ func deliveryScenario(rng *rand.Rand, idx int) {
 		subs = append(subs, subscribe(srv, rng, rng.Intn(4)))
 	}
 	if !waitSubs(srv, nSubs) {
-		r.Inconclusive("subscriptions did not register")
+		r.InconclusiveCase("subscriptions did not register")
 		return
 	}
 	n := 5 + rng.Intn(56)
@@ -307,7 +307,7 @@ func independenceScenario(seed int64, idx int, variant string) {
 		subs[0], victim = s, s
 	}
 	if !waitSubs(srv, nSubs) {
-		r.Inconclusive("subscriptions did not register")
+		r.InconclusiveCase("subscriptions did not register")
 		return
 	}
 	before := 2 + rng.Intn(10)
@@ -390,7 +390,7 @@ func independenceScenario(seed int64, idx int, variant string) {
 				r.Violation("independence:publish-blocked-forever:"+variant, w(map[string]interface{}{"blocked_at_publish_after_event": i, "publish_goroutine": d1, "subscription_table_locked": true, "new_subscription_registered": registered > 0,
 					"victim_in_send": victim.st.isInSend()}))
 			} else {
-				r.Inconclusive(fmt.Sprintf("Publish slow (>3s) without structural witness (parked=%v/%v lock=%d/%d)", parked1, parked2, c1, c2))
+				r.InconclusiveCase(fmt.Sprintf("Publish slow (>3s) without structural witness (parked=%v/%v lock=%d/%d)", parked1, parked2, c1, c2))
 			}
 			break
 		}
